@@ -34,7 +34,7 @@ THEOREMS = [
     "Verif.C12.F9_witness",
 ]
 RULE = (
-    "corpus (F9 inputs) + exhaustive small scope (every ordered pair of the 12 public constructors as a "
+    "corpus (F19 inputs) + exhaustive small scope (every ordered pair of the 12 public constructors as a "
     "CompositeModel, with equal and with different model names, bare / wrapped in subtract_independent_offset / "
     "inverted, at the default parameters; every constructor alone incl. the deprecated aliases; parameter-name "
     "routing of every such expression; Model.invert() with and without interpolation of every solver-free constructor, "
@@ -85,7 +85,7 @@ ASSUMPTIONS = [
     "the spline variant of Model.invert() uses a fixed knot spacing of 0.01 in the parent's independent variable; when a "
     "force model is inverted (knots in um) it is only generated for data spanning >= 1 um (>= 100 knots): coarser grids "
     "are inaccurate by construction (seen: 1.3e-3 relative with 8 knots) and say nothing about the property",
-    "Model.invert() starts SciPy from the hard-coded guess 1.0 clipped into the limits (repair of F9); a clipped guess "
+    "Model.invert() starts SciPy from the hard-coded guess 1.0 clipped into the limits (repair of F19); a clipped guess "
     "that lands ON the lower limit of a distance model whose equation is singular there (x - offset = 0 for "
     "Odijk/eFJC/tWLC) silently returns that limit (seen: ewlc_odijk_distance, f_offset = 1.357, independent_min = "
     "f_offset answers 1.357 for the distance of 6.338 pN). x - offset = 0 is outside the property's force range, so "
@@ -722,7 +722,7 @@ def expected_error(case):
 
 
 def guess_outside(e):
-    """finding F9: an inversion whose limits do not contain the hard-coded initial guess 1.0"""
+    """finding F19: an inversion whose limits do not contain the hard-coded initial guess 1.0"""
     t = e[0]
     if t == "b":
         return False
@@ -1262,7 +1262,7 @@ def inv_limits(e0, p, xs0, interp):
     else:
         Lc = p[f"{e0[2]}/Lc"]
         # the inextensible Marko-Siggia force is increasing only below the contour length; for Lc < ~1 um
-        # these limits exclude the initial guess 1.0 (finding F9)
+        # these limits exclude the initial guess 1.0 (finding F19)
         lo, hi = 0.0, min(Lc * 0.995, max(max(xs0) * 1.05, 1.0 + 1e-9))
         if kind in ("ewlc_odijk_force", "ewlc_marko_siggia_force", "efjc_force", "twlc_force"):
             hi = max(max(xs0) * 1.05, 1.0 + 1e-9)
